@@ -42,9 +42,23 @@ PartsLoop(A, kv, j, h, lo, ak) ==
        PartsLoop(A, kv, j + 1, h + (A[j] \div 1000) * kk, lo + (A[j] % 1000) * kk, ak + Abs(kk))
 PartsKv(A, kv) == PartsLoop(A, kv, 1, 0, 0, 0)
 Parts(kern, X, A, p) == PartsKv(A, [j \in 1..Len(X) |-> KRaw(kern, X[j], p)])
-PartsOk(kern, pt) == IsRbf(kern) \/ Abs(pt.h) <= 2000000
-\* the weighted sum  sum_j a_j K(x_j, p)  in 10^-6 units (error < 2 units for rbf)
+\* the weighted sum  sum_j a_j K(x_j, p)  in 10^-6 units (error < 2 units for rbf); only for sums below 2000
 Ws6(kern, pt) == IF IsRbf(kern) THEN pt.h \div 10 + pt.lo \div 10000 ELSE 1000 * pt.h + pt.lo
+
+(* Values that may be too large for 10^-6 units inside 31 bits are kept as records [h, l] meaning        *)
+(* 1000 h + l  (h in 10^-3 units).  Sub is the difference in 10^-6 units, saturated at +-2*10^9 when it   *)
+(* exceeds 2000 in absolute value: every comparison below is against thresholds far smaller than that,    *)
+(* so a saturated difference decides it correctly.                                                        *)
+V6(w) == [h |-> w \div 1000, l |-> w % 1000]             \* from a fine value (10^-6 units)
+V3(cc) == [h |-> cc, l |-> 0]                             \* from a coarse value (10^-3 units)
+NormV(h, lo) == [h |-> h + lo \div 1000, l |-> lo % 1000]
+SAT == 2000000000
+Sub(a, b) == LET d == a.h - b.h IN
+             IF Abs(d) <= 2000000 THEN 1000 * d + (a.l - b.l) ELSE IF d > 0 THEN SAT ELSE -SAT
+\* an observed number logged in fine ("f", 10^-6) or coarse ("c", 10^-3, used when |v| >= 1073) fixed point
+ObsV(k, v) == IF k = "c" THEN V3(v) ELSE V6(v)
+ObsS(k) == IF k = "c" THEN 600 ELSE 0                     \* quantisation of a coarse observation
+PartsV(kern, pt) == IF IsRbf(kern) THEN V6(Ws6(kern, pt)) ELSE NormV(pt.h, pt.lo)
 SumAbsH(A) == SumSeq([j \in 1..Len(A) |-> Abs(A[j]) \div 1000])     \* in 10^-3 units
 \* quantisation slack of a weighted sum: half a unit per coefficient times |K|, the kernel table error
 \* (sabsh = SumAbsH(A), only used for the Gaussian kernel)
@@ -58,15 +72,12 @@ QSlack(kern, pt, A) == QSlackS(kern, pt, IF IsRbf(kern) THEN SumAbsH(A) ELSE 0, 
 RECURSIVE ForceSeq(_, _)
 ForceSeq(f, n) == IF n = 0 THEN <<>> ELSE Append(ForceSeq(f, n - 1), f[n])
 
-\* for every point of P: [ok: sum representable, w: weighted sum (10^-6), s: its quantisation slack]
+\* for every point of P: [v: weighted sum (value record), s: its quantisation slack in 10^-6 units]
 PointVals(kern, X, A, P) ==
   LET sabsh == IF IsRbf(kern) THEN SumAbsH(A) ELSE 0 IN
   ForceSeq([i \in 1..Len(P) |->
               LET pt == Parts(kern, X, A, P[i]) IN
-              [ok |-> PartsOk(kern, pt),
-               w  |-> IF PartsOk(kern, pt) THEN Ws6(kern, pt) ELSE 0,
-               s  |-> QSlackS(kern, pt, sabsh, Len(A))]], Len(P))
-AllOk(pv) == \A i \in 1..Len(pv) : pv[i].ok
+              [v |-> PartsV(kern, pt), s |-> QSlackS(kern, pt, sabsh, Len(A))]], Len(P))
 
 \* sum of the coefficients is zero up to quantisation (split to avoid overflow)
 EqZero(A, slack) ==
@@ -99,9 +110,8 @@ CsvcWhy(In, A, rho) ==
      ELSE IF \E i \in 1..n : Abs(A[i]) > cb[i] + 1 THEN "box"
      ELSE IF ~EqZero(A, n \div 2 + 2) THEN "equality"
      ELSE LET pv == TrainVals(In, A) IN
-          IF ~AllOk(pv) THEN "range"
-          ELSE IF \E i \in 1..n :
-                    ~MarginOk(A[i], cb[i], 1, YS(In, i) * (pv[i].w - rho), SA, Tau(In) + pv[i].s) THEN "kkt"
+          IF \E i \in 1..n :
+                    ~MarginOk(A[i], cb[i], 1, YS(In, i) * Sub(pv[i].v, rho.v), SA, Tau(In) + pv[i].s + rho.s) THEN "kkt"
           ELSE "none"
 
 (* ---------------------------------------------------------------- nu-SVC  *)
@@ -120,9 +130,8 @@ NusvcWhy(In, A, rho) ==
           ELSE IF \E i \in 1..n : Abs(A[i]) > ub + du THEN "box"
           ELSE IF ~EqZero(A, n \div 2 + 2) THEN "equality"
           ELSE LET pv == TrainVals(In, A) IN
-               IF ~AllOk(pv) THEN "range"
-               ELSE IF \E i \in 1..n :
-                         ~MarginOk(A[i], ub, du, YS(In, i) * (pv[i].w - rho), SA, Tau(In) + pv[i].s) THEN "kkt"
+               IF \E i \in 1..n :
+                         ~MarginOk(A[i], ub, du, YS(In, i) * Sub(pv[i].v, rho.v), SA, Tau(In) + pv[i].s + rho.s) THEN "kkt"
                ELSE "none"
 
 (* -------------------------------------------------------------- one-class *)
@@ -134,8 +143,7 @@ OneclassWhy(In, A, rho) ==
   ELSE IF \E i \in 1..n : A[i] > SA + 1 THEN "box"
   ELSE IF Abs(SumSeq(A) * nud - nun * n * SA) > (n \div 2 + 2) * nud THEN "equality"
   ELSE LET pv == TrainVals(In, A) IN
-       IF ~AllOk(pv) THEN "range"
-       ELSE IF \E i \in 1..n : ~MarginOk(A[i], SA, 1, pv[i].w - rho, 0, Tau(In) + pv[i].s) THEN "kkt"
+       IF \E i \in 1..n : ~MarginOk(A[i], SA, 1, Sub(pv[i].v, rho.v), 0, Tau(In) + pv[i].s + rho.s) THEN "kkt"
        ELSE "none"
 
 (* ---------------------------------------------------------- epsilon-SVR   *)
@@ -145,15 +153,14 @@ SvrOne(b, c6, e, eps6, s) ==
   \/ Abs(b) <= 1 /\ Abs(e) <= eps6 + s
   \/ b >= 1  /\ (Abs(e - eps6) <= s \/ (b >= c6 - 1 /\ e >= eps6 - s))
   \/ b <= -1 /\ (Abs(e + eps6) <= s \/ (b <= 1 - c6 /\ e <= s - eps6))
-Resid(In, rho, pv, i) == In.y[i] * SA - (pv[i].w - rho)
+Resid(In, rho, pv, i) == In.y[i] * SA - Sub(pv[i].v, rho.v)
 EsvrWhyEps(In, A, rho, eps6) ==
   LET n == N(In)  c6 == Rat6(In.c) IN
   IF Len(A) # n THEN "len"
   ELSE IF \E i \in 1..n : Abs(A[i]) > c6 + 1 THEN "box"
   ELSE IF ~EqZero(A, n + 2) THEN "equality"
   ELSE LET pv == TrainVals(In, A) IN
-       IF ~AllOk(pv) THEN "range"
-       ELSE IF \E i \in 1..n : ~SvrOne(A[i], c6, Resid(In, rho, pv, i), eps6, Tau(In) + pv[i].s) THEN "kkt"
+       IF \E i \in 1..n : ~SvrOne(A[i], c6, Resid(In, rho, pv, i), eps6, Tau(In) + pv[i].s + rho.s) THEN "kkt"
        ELSE "none"
 EsvrWhy(In, A, rho) == EsvrWhyEps(In, A, rho, Rat6(In.le))
 
@@ -171,8 +178,7 @@ NusvrWhy(In, A, rho) ==
            cap == MulDiv(c6, nun * n, nud)                \* C nu l
        IN IF T > cap + n + 2 THEN "nu-budget"
           ELSE LET pv == TrainVals(In, A) IN
-               IF ~AllOk(pv) THEN "range"
-               ELSE LET s == [i \in 1..n |-> Tau(In) + pv[i].s]
+               LET s == [i \in 1..n |-> Tau(In) + pv[i].s + rho.s]
                         e == [i \in 1..n |-> Resid(In, rho, pv, i)]
                         u == [i \in 1..n |-> IF A[i] > 0 THEN e[i] ELSE -e[i]]
                         Zs == {i \in 1..n : A[i] = 0}
@@ -187,25 +193,34 @@ NusvrWhy(In, A, rho) ==
 
 (* ------------------------------------------------------ decision values   *)
 RelErr(In, v) == Abs(v) \div (IF In.ft = "f32" THEN 100000 ELSE 100000000)
-\* observed weighted sums of a list of points (pv = PointVals of that list) agree with sum_i a_i K(x_i, .)
-WsAgree(In, pv, obs) ==
-  /\ Len(obs) = Len(pv) /\ AllOk(pv)
-  /\ \A i \in 1..Len(pv) : Abs(obs[i] - pv[i].w) <= pv[i].s + NumSlack(In) + RelErr(In, pv[i].w)
+\* observed weighted sums (values obs, kinds kd) of a list of points (pv = PointVals of that list) agree with
+\* sum_i a_i K(x_i, .)
+WsAgree(In, pv, obs, kd) ==
+  /\ Len(obs) = Len(pv) /\ Len(kd) = Len(pv)
+  /\ \A i \in 1..Len(pv) :
+       Abs(Sub(ObsV(kd[i], obs[i]), pv[i].v)) <= pv[i].s + ObsS(kd[i]) + NumSlack(In) + RelErr(In, Sub(pv[i].v, V6(0)))
 \* labels are the sign of the decision value (either label inside the slack band around zero)
 LabelsAgree(In, pv, rho, lab) ==
   /\ Len(lab) = Len(pv)
   /\ \A i \in 1..Len(pv) :
-       LET f == pv[i].w - rho
-           s == pv[i].s + NumSlack(In) + RelErr(In, f)
+       LET f == Sub(pv[i].v, rho.v)
+           s == pv[i].s + rho.s + NumSlack(In) + RelErr(In, f)
        IN (f > s => lab[i]) /\ (f < -s => ~lab[i])
-\* regression predictions are  weighted sum - rho
-PredAgree(In, pv, rho, pred) ==
-  /\ Len(pred) = Len(pv)
+\* regression predictions are  weighted sum - rho :  pred + rho = weighted sum
+PredAgree(In, pv, rho, pred, kd) ==
+  /\ Len(pred) = Len(pv) /\ Len(kd) = Len(pv)
   /\ \A i \in 1..Len(pv) :
-       LET f == pv[i].w - rho IN Abs(pred[i] - f) <= pv[i].s + NumSlack(In) + RelErr(In, f)
+       LET f == Sub(pv[i].v, rho.v)                        \* expected prediction (saturated when huge)
+           o == Sub(ObsV(kd[i], pred[i]), V6(0))           \* observed prediction (saturated when huge)
+       IN IF Abs(f) < SAT /\ Abs(o) < SAT
+            THEN Abs(o - f) <= pv[i].s + rho.s + ObsS(kd[i]) + NumSlack(In) + RelErr(In, f)
+            ELSE \* |value| > 2000: compare in 10^-3 units
+                 LET oh == ObsV(kd[i], pred[i]).h  fh == pv[i].v.h - rho.v.h IN
+                 Abs(oh - fh) <= (pv[i].s + rho.s) \div 1000 + 3 + Abs(fh) \div (IF In.ft = "f32" THEN 100000 ELSE 100000000)
 \* probabilities are an order-monotone function of the decision value (either direction), in [0,1]
-MonoUp(ws, pr)   == \A i, j \in 1..Len(ws) : ws[i] < ws[j] => pr[i] <= pr[j] + 1
-MonoDown(ws, pr) == \A i, j \in 1..Len(ws) : ws[i] < ws[j] => pr[i] + 1 >= pr[j]
+\* (ws: order-preserving keys of the decision values, Fx.KeyLt ; pr: probabilities in 10^-6)
+MonoUp(ws, pr)   == \A i, j \in 1..Len(ws) : KeyLt(ws[i], ws[j]) => pr[i] <= pr[j] + 1
+MonoDown(ws, pr) == \A i, j \in 1..Len(ws) : KeyLt(ws[i], ws[j]) => pr[i] + 1 >= pr[j]
 ProbOk(ws, pr) ==
   /\ Len(ws) = Len(pr)
   /\ \A i \in 1..Len(pr) : pr[i] >= 0 /\ pr[i] <= SA
